@@ -1182,7 +1182,7 @@ class BareServer():
         Timeout stale connections
         """
         self.servant.serviceConnects()
-        for ca, ix in self.servant.ixes.items():
+        for ca, ix in list(self.servant.ixes.items()):  # list since closeConnection deletes
             # check for and handle cutoff connections by client here
 
             if ca not in self.stewards:
@@ -1196,7 +1196,7 @@ class BareServer():
         """
         Service pending requestants and responders
         """
-        for ca, steward in self.stewards.items():
+        for ca, steward in list(self.stewards.items()):  # list since closeConnection deletes
             if not steward.waited:
                 steward.requestant.parse()
 
